@@ -13,27 +13,24 @@ import (
 	"verifharness/internal/stats"
 )
 
-// knownWaiterRacingRestart is the open known finding KF-C16-1: ShutdownComplete is one exported sync.WaitGroup that is
-// armed again by every Start. When goroutines are blocked in ShutdownComplete.Wait() while another goroutine restarts
-// the pool, the WaitGroup is re-armed before the woken waiters have re-checked it, and the runtime panics ("sync:
-// WaitGroup is reused before previous Wait has returned", in a waiter, or "sync: WaitGroup misuse: Add called
-// concurrently with Wait", in Start). The generated programs of this package never overlap a waiter with a restart
-// (every ShutdownComplete.Wait is awaited before the next Start is issued); this test performs exactly that overlap.
-const knownWaiterRacingRestart = "KF-C16-1"
-
+// Waiters on ShutdownComplete overlapping a restart: ShutdownComplete used to be one exported sync.WaitGroup that every
+// Start armed again, and goroutines blocked in ShutdownComplete.Wait() while another goroutine restarted the pool made
+// the runtime panic ("sync: WaitGroup is reused before previous Wait has returned" / "WaitGroup misuse: Add called
+// concurrently with Wait") - the former known finding KF-C16-1, repaired in /repo by a restart-safe wait group. The
+// generated programs of this package never overlap a waiter with a restart; this test does, and every panic is a
+// violation.
 func isWaitGroupReusePanic(v any) bool {
 	s := fmt.Sprint(v)
 
 	return strings.Contains(s, "WaitGroup is reused before previous Wait has returned") || strings.Contains(s, "WaitGroup misuse: Add called concurrently with Wait")
 }
 
-// TestKnownWaiterRacingRestart: Shutdown, then k waiters on ShutdownComplete and a restarting goroutine released
-// together. A recovered sync.WaitGroup re-use panic is KF-C16-1 (reported with stats.Known, never a failure, the trial
-// is abandoned); every other outcome is judged as usual: all waiters and Start return, the tasks of the new run all run,
-// the closing Shutdown + ShutdownComplete.Wait returns, no other panic.
-func TestKnownWaiterRacingRestart(t *testing.T) {
-	const check = "known_waiter_racing_restart"
-	stats.Rule(check, "rapid draws 1..4 workers, cancel-on-shutdown on/off, 1..16 waiters, 0..6 tasks of the first run and 1..6 of the second; 30 trials (thorough 300) per case on fresh pools: Start, tasks, Shutdown, then the waiters (ShutdownComplete.Wait, each with recover) and one Start (with recover) are released together by a spin barrier; afterwards tasks are submitted to the restarted pool, WaitIsZero, Shutdown, ShutdownComplete.Wait - all under the stall-tolerant 20 s watchdog. A recovered sync.WaitGroup re-use panic is the known finding KF-C16-1 (counted, trial abandoned). Oracle otherwise: no other panic; Start returns; every waiter returns at the latest after the closing shutdown; the tasks accepted by the restarted pool all ran exactly once; counter 0 at the end. Distinct by configuration; non-trivial = >= 4 waiters")
+// TestWaiterRacingRestart: Shutdown, then k waiters on ShutdownComplete and a restarting goroutine released together.
+// All waiters and Start return, nobody panics, the tasks of the new run all run, the closing Shutdown +
+// ShutdownComplete.Wait returns.
+func TestWaiterRacingRestart(t *testing.T) {
+	const check = "waiter_racing_restart"
+	stats.Rule(check, "rapid draws 1..4 workers, cancel-on-shutdown on/off, 1..16 waiters, 0..6 tasks of the first run and 1..6 of the second; 30 trials (thorough 300) per case on fresh pools: Start, tasks, Shutdown, then the waiters (ShutdownComplete.Wait, each with recover) and one Start (with recover) are released together by a spin barrier; afterwards tasks are submitted to the restarted pool, WaitIsZero, Shutdown, ShutdownComplete.Wait - all under the stall-tolerant 20 s watchdog. Oracle: no panic (a sync.WaitGroup re-use panic was the former known finding KF-C16-1); Start returns; every waiter returns at the latest after the closing shutdown; the tasks accepted by the restarted pool all ran exactly once; counter 0 at the end. Distinct by configuration; non-trivial = >= 4 waiters")
 	trials := stats.Scale(30, 300)
 	rapid.Check(t, func(rt *rapid.T) {
 		workers := rapid.IntRange(1, 4).Draw(rt, "workers")
@@ -47,7 +44,6 @@ func TestKnownWaiterRacingRestart(t *testing.T) {
 			stats.Violation(check, map[string]any{"config": desc, "problem": msg})
 			rt.Fatalf("%s: %s", desc, msg)
 		}
-		knownSeen := 0
 		for trial := 0; trial < trials; trial++ {
 			wp := workerpool.New("p", workerpool.WithWorkerCount(workers), workerpool.WithCancelPendingTasksOnShutdown(cancel)).Start()
 			var ran1 atomic.Int32
@@ -117,14 +113,7 @@ func TestKnownWaiterRacingRestart(t *testing.T) {
 				fail("trial %d: unexpected panic: %v", trial, other)
 			}
 			if k > 0 {
-				// the pool may be half started: stop what runs and abandon the trial
-				knownSeen++
-				go func() {
-					defer func() { _ = recover() }()
-					wp.Shutdown()
-				}()
-
-				continue
+				fail("trial %d: sync.WaitGroup re-use panic while waiters on ShutdownComplete overlap a restart: %v", trial, known)
 			}
 			var ran2 atomic.Int32
 			for i := 0; i < second; i++ {
@@ -149,9 +138,7 @@ func TestKnownWaiterRacingRestart(t *testing.T) {
 				fail("trial %d: unexpected panic: %v", trial, other)
 			}
 			if k > 0 {
-				knownSeen++
-
-				continue
+				fail("trial %d: sync.WaitGroup re-use panic in the closing phase: %v", trial, known)
 			}
 			if c := wp.PendingTasksCounter.Get(); c != 0 {
 				fail("trial %d: pending counter is %d after the closing shutdown", trial, c)
@@ -160,15 +147,7 @@ func TestKnownWaiterRacingRestart(t *testing.T) {
 				fail("trial %d: %d of %d tasks of the first run ran (no cancel-on-shutdown)", trial, ran1.Load(), first)
 			}
 		}
-		if knownSeen > 0 {
-			stats.Known(knownWaiterRacingRestart)
-			stats.NoteAdd(check, "trials_with_waitgroup_reuse_panic", int64(knownSeen))
-		}
 		stats.NoteAdd(check, "trials", int64(trials))
-		var ls []string
-		if knownSeen > 0 {
-			ls = append(ls, "known_KF-C16-1_observed")
-		}
-		stats.Case(check, waiters >= 4, desc, func() any { return desc }, ls...)
+		stats.Case(check, waiters >= 4, desc, func() any { return desc })
 	})
 }
